@@ -354,7 +354,9 @@ class DeserializationMethodVisitor(
 
     def any(self) -> DeserializationMethodFactory:
         def factory(constraints: Optional[Constraints], _) -> DeserializationMethod:
-            return AnyMethod(dict(constraints_validators(constraints)))
+            return AnyMethod(
+                dict(constraints_validators(constraints)), not self.no_copy
+            )
 
         return self._factory(factory)
 
